@@ -71,6 +71,32 @@ def install_field_contracts(m):
         return (a[0], tm.ite(isq, 1, 0, 64))
     m.contracts[FE + 'Sqrt'] = c_sqrt
 
+    # method-level closed forms on the 256-bit value (discharged by C01 field/method/*): they make equal values
+    # syntactically equal terms, which keeps the uninterpreted-product arguments comparable
+    def c_iszero(m, a):
+        return tm.ite(tm.eq(ev(a[0]), 0, 256), 1, 0, 64)
+    m.contracts[FE + 'IsZero'] = c_iszero
+
+    def c_equal(m, a):
+        return tm.ite(tm.eq(ev(a[0]), ev(a[1]), 256), 1, 0, 64)
+    m.contracts[FE + 'Equal'] = c_equal
+
+    def c_isodd(m, a):
+        v = ev(a[0])
+        return tm.zext(tm.extract(v, 0, 0), 64) if isinstance(v, tm.T) else v & 1
+    m.contracts[FE + 'IsOdd'] = c_isodd
+
+    def c_condsel(m, a):
+        est(a[0], tm.ite(tm.eq(a[3], 0, 64), ev(a[1]), ev(a[2]), 256))
+        return a[0]
+    m.contracts[FE + 'ConditionalSelect'] = c_condsel
+
+    def c_condneg(m, a):
+        v = ev(a[1])
+        est(a[0], tm.ite(tm.eq(a[2], 0, 64), v, fneg(v), 256))
+        return a[0]
+    m.contracts[FE + 'ConditionalNegate'] = c_condneg
+
     def c_inv(m, a):
         A = ev(a[1])
         c = tm._conc(A)
@@ -86,6 +112,7 @@ SUMMARY = {
     '(*field.Element).Sqrt': '(root, 1) if the argument is a square else (0, 0); root^2 = argument: discharged by C01 field/sqrt/*',
     '(*field.Element).Invert': 'x^(p-2): discharged by C01 field/chain/Invert',
     'field product': 'commutative uninterpreted function with unit 1 and absorbing 0 (C01 kernel contracts)',
+    '(*field.Element).{IsZero,Equal,IsOdd,ConditionalSelect,ConditionalNegate}': 'closed forms on the value: discharged by C01 field/method/*',
 }
 
 
